@@ -36,7 +36,7 @@ def plan(tier, seed):
         for i, mtu in enumerate(mtus):
             shards.append({"kind": "sizes", "tier": tier, "seed": seed, "mtu": mtu, "shard": i, "subprocess": True})
         for i in range(32):
-            shards.append({"kind": "faults", "tier": tier, "seed": seed, "shard": i, "n": 25, "subprocess": True})
+            shards.append({"kind": "faults", "tier": tier, "seed": seed, "shard": i, "n": 90, "subprocess": True})
     return shards
 
 
